@@ -35,18 +35,7 @@ Theorem C11_renumbering_is_bijection (S : Scalar) (M : rank_mat S) :
   (forall i, i < length rc -> index_of (nth i rc 0) rc = i) /\
   (forall c c', In c rc -> In c' rc -> c < c' -> index_of c rc < index_of c' rc) /\
   wf (renumber rc (rm_rem M)) = true.
-Proof.
-  intro rc. pose proof (sort_unique_sorted (flat_map (fun r : row S => map fst r) (rows (rm_rem M)))) as Hs.
-  repeat split.
-  - apply rem_cols_spec.
-  - apply rem_cols_spec.
-  - apply sorted_NoDup. exact Hs.
-  - apply index_of_In. assumption.
-  - apply index_of_In. assumption.
-  - intros i Hi. apply index_of_nth; [apply sorted_NoDup; exact Hs | exact Hi].
-  - intros c c'. apply index_of_mono. exact Hs.
-  - apply renumber_wf.
-Qed.
+Proof. exact (renumbering_is_bijection S M). Qed.
 Print Assumptions C11_renumbering_is_bijection.
 
 (* for every column partition (empty ranks included) and every world of sorted, in-range
@@ -65,14 +54,7 @@ Theorem C11_patterns_mutually_consistent (cparts : list nat) (rcs : list (list n
     (forall c, In c (nth q (cp_recv (nth d pats dflt_cpat)) []) ->
        In c (cp_rc (nth d pats dflt_cpat)) /\ pbeg cparts q <= c < pbeg cparts q + psize cparts q) /\
     concat (cp_recv (nth d pats dflt_cpat)) = cp_rc (nth d pats dflt_cpat).
-Proof.
-  intros Hl Hok pats q d Hq Hd. repeat split.
-  - exact (send_recv_consistent cparts rcs Hl q d Hq Hd).
-  - exact (proj1 (recv_cols_owned cparts rcs Hl Hok q d c Hq Hd H)).
-  - exact (proj1 (proj2 (recv_cols_owned cparts rcs Hl Hok q d c Hq Hd H))).
-  - exact (proj2 (proj2 (recv_cols_owned cparts rcs Hl Hok q d c Hq Hd H))).
-  - exact (recv_concat cparts rcs Hl Hok d Hd).
-Qed.
+Proof. exact (patterns_mutually_consistent cparts rcs). Qed.
 Print Assumptions C11_patterns_mutually_consistent.
 
 (* the ghost exchange delivers exactly x[global column] for every remote column, in idx
